@@ -42,6 +42,7 @@ type contextStackEntry struct {
 	CurrentObjectCount  int
 	ExpectedObjectCount int // -1 means ignored
 	Keys                map[interface{}]bool
+	MarkerID            string // Only used by marked object rules
 }
 
 type Context struct {
@@ -316,11 +317,13 @@ func (_this *Context) BeginNode() {
 func (_this *Context) BeginMarkerKeyable(id []byte, dataType DataType) {
 	_this.markerID = string(id)
 	_this.stackRule(&markedObjectKeyableRule, dataType, noObjectCount)
+	_this.CurrentEntry.MarkerID = _this.markerID
 }
 
 func (_this *Context) BeginMarkerAnyType(id []byte, dataType DataType) {
 	_this.markerID = string(id)
 	_this.stackRule(&markedObjectAnyTypeRule, dataType, noObjectCount)
+	_this.CurrentEntry.MarkerID = _this.markerID
 }
 
 func (_this *Context) LocalReferenceKeyable(identifier []byte) {
@@ -344,6 +347,13 @@ func (_this *Context) EndDocument() {
 		panic(fmt.Errorf("%v]", str))
 	}
 	_this.ChangeRule(&terminalRule)
+}
+
+// Mark a container that has just ended. Markers inside the container may
+// have overwritten the current marker ID, so restore it from the stack entry.
+func (_this *Context) MarkEndedContainer(dataType DataType) {
+	_this.markerID = _this.CurrentEntry.MarkerID
+	_this.MarkObject(dataType)
 }
 
 func (_this *Context) MarkObject(dataType DataType) {
